@@ -351,6 +351,13 @@ def run():
         o = Obligation("patterns and selector", "z3 regex equivalence")
         o.verdict, o.detail = "inconclusive", str(e)
         rep.add(o)
+    try:
+        selector_base_obligation(rep, ctx)
+    except Inconclusive as e:
+        from common import Obligation
+        o = Obligation("selector base", "E2 mirsym/z3")
+        o.verdict, o.detail = "inconclusive", str(e)
+        rep.add(o)
     # every selection option of `group` can be used: definition and access types of the clap options agree
     from obligations import cli_types
     cli_types.add(rep, ctx, ctx.lib, r"^GroupConfig$")
@@ -458,3 +465,71 @@ def size_replay(binary):
         return []
     finally:
         shutil.rmtree(d, ignore_errors=True)
+
+
+def selector_base_obligation(rep, ctx):
+    """GroupCtx::new: relative --path / --exclude patterns are anchored at the process's working directory - `--base-dir` is documented
+    as the base "when resolving relative input paths" only.  E2: the directory handed to GroupConfig::path_selector derives from
+    std::env::current_dir() (through Path::from / unwrap_or_default), not from the configuration.  Replay: the real binary run with
+    --base-dir pointing elsewhere and a relative --path / --exclude pattern."""
+    import optsum
+    import summaries
+    from common import Obligation, scratch_root
+    prog = ctx.lib
+    f = prog.method("GroupCtx", "new")
+    eng = oblig.engine(prog, unroll=0, inline=None, extra=dict(optsum.SUMMARIES))
+    ps = eng.run(f)
+
+    def prop(p):
+        sel = called(p, r"GroupConfig::path_selector$")
+        if not sel:
+            return None
+        st = mirsym.State()
+        st.mem, st.pc = p.mem, list(p.pc)
+        v = sel[0].args[1]
+        for _ in range(8):
+            cn = summaries.canon(eng, st, v).strip().lstrip("&").rstrip("*")
+            prod = [ev for ev in p.events if ev.kind == "call" and ev.ret is not None
+                    and summaries.canon(eng, st, ev.ret).strip().lstrip("&").rstrip("*") in (cn, re.sub(r"@(Ok|Some)\.0$", "", cn))]
+            if not prod:
+                return z3.BoolVal(False)
+            if re.search(r"(^|::)current_dir$", prod[0].callee):
+                return z3.BoolVal(True)
+            if not prod[0].args or not re.search(r"From(<.*>)?>::from$|Into(<.*>)?>::into$|unwrap_or_default$|unwrap$|clone$|[Dd]eref|as_ref$|to_path_buf$", prod[0].callee):
+                return z3.BoolVal(False)
+            v = prod[0].args[0]
+        return z3.BoolVal(False)
+    o = oblig.check_paths(eng, ps, "GroupCtx::new: relative --path / --exclude patterns are anchored at the working directory (current_dir), not at --base-dir",
+                          prop, oblig.fnames(eng), key="selector:base-is-cwd", allow=("return", "panic", "diverge"))
+    if o.verdict == "violated":
+        try:
+            binary = native.build_binary(ctx.src)
+            d = tempfile.mkdtemp(prefix="c09sel.", dir=scratch_root())
+            try:
+                for top in ("work", "other"):
+                    os.makedirs(os.path.join(d, top, "sub"))
+                    for n in ("a", "b"):
+                        with open(os.path.join(d, top, "sub", top + "_" + n), "wb") as fh:
+                            fh.write(top.encode() * 40)
+                env = dict(os.environ, HOME=d)
+                devs = []
+                for opt, want in ((["--path", "sub/*"], ["work_a", "work_b"]), (["--exclude", "sub/*"], ["other_a", "other_b"])):
+                    r = subprocess.run([binary, "group", "-f", "json", "--base-dir", os.path.join(d, "other")] + opt + [os.path.join(d, "work"), os.path.join(d, "other")],
+                                       cwd=os.path.join(d, "work"), stdout=subprocess.PIPE, stderr=subprocess.PIPE, env=env, timeout=60)
+                    try:
+                        got = sorted(os.path.basename(x) for g in json.loads(r.stdout.decode(errors="replace")).get("groups", []) for x in g["files"])
+                    except Exception:   # noqa
+                        got = ["<no report>"]
+                    if got != want:
+                        devs.append({"options": opt + ["--base-dir", "../other"], "cwd": "work", "reported": got, "documented": want})
+                if devs:
+                    o.stats["traces_validated"] = 1
+                    o.cex = dict(o.cex or {}, native=devs)
+                    o.detail += "; replayed natively: %s" % json.dumps(devs[0])
+                else:
+                    o.detail += "; native run with --base-dir elsewhere selects the documented files"
+            finally:
+                shutil.rmtree(d, ignore_errors=True)
+        except Inconclusive as ex:
+            o.detail += "; native build failed: %s" % str(ex)[:100]
+    rep.add(o)
